@@ -77,11 +77,12 @@ type runPlan struct {
 	PanicEvery int
 	BodyUs     int
 	Setup      string // ok | fail | failnow | panic
+	TimedSteps []string // stage names of steps every body (and the setup) times with T.Time; "" is a valid name
 }
 
 func (p runPlan) String() string {
-	return fmt.Sprintf("{name=%q setup=%s failEvery=%d panicEvery=%d bodyMicros=%d drops=%v %s}",
-		p.Name, p.Setup, p.FailEvery, p.PanicEvery, p.BodyUs, p.DropShape, p.Shape.Desc)
+	return fmt.Sprintf("{name=%q setup=%s failEvery=%d panicEvery=%d bodyMicros=%d drops=%v timedSteps=%q %s}",
+		p.Name, p.Setup, p.FailEvery, p.PanicEvery, p.BodyUs, p.DropShape, p.TimedSteps, p.Shape.Desc)
 }
 
 func genRunPlan(t *rapid.T, earlier []string) runPlan {
@@ -95,6 +96,10 @@ func genRunPlan(t *rapid.T, earlier []string) runPlan {
 	p.DropShape = rapid.IntRange(0, 3).Draw(t, "dropShape") == 0
 	p.FailEvery = rapid.SampledFrom([]int{0, 2, 3, 5, 11}).Draw(t, "failEvery")
 	p.PanicEvery = rapid.SampledFrom([]int{0, 0, 4, 7}).Draw(t, "panicEvery")
+	if rapid.IntRange(0, 2).Draw(t, "timedSteps") == 0 {
+		// steps timed with T.Time export stage series of their own; they are no iterations
+		p.TimedSteps = rapid.SliceOfN(rapid.SampledFrom([]string{"", "", "step", "setup", "Iteration"}), 1, 3).Draw(t, "stepNames")
+	}
 	if p.DropShape {
 		// one worker, bodies of three ticks: every tick after the first finds the worker busy and
 		// supersedes the requests still pending (the shape of c08's CLI drop case, shortened)
@@ -123,16 +128,29 @@ func TestProp_ConsecutiveRuns(t *testing.T) {
 	rapid.Check(t, func(rt *rapid.T) {
 		labels := genLabels(rt)
 		metricsOn := rapid.IntRange(0, 3).Draw(rt, "iterationMetrics") != 0
+		// one case in three uses the process-wide instance, the way the CLI does; only there do steps
+		// timed with T.Time (which always books into the process-wide instance) land next to the
+		// iteration series - and must not be counted as iterations
+		processWide := rapid.IntRange(0, 2).Draw(rt, "processWideInstance") == 0
+		if processWide {
+			labels, metricsOn = labelSpec{}, true
+		}
 		nRuns := rapid.SampledFrom([]int{1, 2, 2, 3}).Draw(rt, "runs")
 		plans := []runPlan{}
 		names := []string{}
 		for i := 0; i < nRuns; i++ {
 			p := genRunPlan(rt, names)
+			if !processWide {
+				p.TimedSteps = nil
+			}
 			plans = append(plans, p)
 			names = append(names, p.Name)
 		}
 
 		instance := metrics.NewInstance(prometheus.NewRegistry(), metricsOn, labels.build())
+		if processWide {
+			instance = metrics.Instance()
+		}
 		obs := []runObs{}
 		violation, infra := "", ""
 		for i, p := range plans {
@@ -148,6 +166,9 @@ func TestProp_ConsecutiveRuns(t *testing.T) {
 		cls = append(cls, fmt.Sprintf("runs-%d", nRuns))
 		if !metricsOn {
 			cls = append(cls, "iteration-metrics-off")
+		}
+		if processWide {
+			cls = append(cls, "process-wide-instance")
 		}
 		seen := map[string]bool{}
 		add := func(c string) {
@@ -176,7 +197,7 @@ func TestProp_ConsecutiveRuns(t *testing.T) {
 				}
 			}
 		}
-		key := fmt.Sprintf("%s|%v|%v", labels, metricsOn, plans)
+		key := fmt.Sprintf("%s|%v|%v|%v", labels, metricsOn, plans, processWide)
 		stats.Case("runs", key, labels.orderDiffers() || nRuns >= 2, cls, func() any {
 			runs := []any{}
 			for _, o := range obs {
@@ -201,6 +222,9 @@ func oneRun(dir string, instance *metrics.Metrics, labels labelSpec, metricsOn b
 	var passed, failed atomic.Uint64
 	var inFlight atomic.Int64
 	scenario := func(st *f1testing.T) f1testing.RunFn {
+		for _, name := range p.TimedSteps {
+			st.Time(name, func() {})
+		}
 		switch p.Setup {
 		case "fail":
 			st.Fail()
@@ -213,6 +237,9 @@ func oneRun(dir string, instance *metrics.Metrics, labels labelSpec, metricsOn b
 			inFlight.Add(1)
 			defer inFlight.Add(-1)
 			id, _ := strconv.ParseUint(it.Iteration, 10, 64)
+			for _, name := range p.TimedSteps {
+				it.Time(name, func() {})
+			}
 			if p.BodyUs > 0 {
 				time.Sleep(time.Duration(p.BodyUs) * time.Microsecond)
 			}
@@ -297,8 +324,21 @@ func oneRun(dir string, instance *metrics.Metrics, labels labelSpec, metricsOn b
 	if total != 1 || mc.Setup[setupResult] != 1 {
 		return o, fmt.Sprintf("%s: setup outcome %q, the setup metric holds %v (expected exactly one sample, labelled %q)", where, setupResult, mc.Setup, setupResult), ""
 	}
+	// steps timed with T.Time export one series per stage name and outcome at the time (the handle has
+	// not failed yet where the plans time their steps); none of them under stage "iteration"
+	setupRan := uint64(1)
+	for _, step := range p.TimedSteps {
+		want[seriesKey{famIteration, p.Name, step, "success"}] += setupRan + o.BodyPass + o.BodyFail
+	}
+	// the process-wide registry also carries the Go runtime's own families
+	fams := mc.Families[:0:0]
+	for _, f := range mc.Families {
+		if n := f.GetName(); n == famSetup || n == famIteration {
+			fams = append(fams, f)
+		}
+	}
 	// series by series: label sets, key/value pairing, scenario name, nothing of an earlier run
-	if d := checkFamilies(mc.Families, want, labels, map[string]bool{p.Name: true}); d != "" {
+	if d := checkFamilies(fams, want, labels, map[string]bool{p.Name: true}); d != "" {
 		return o, fmt.Sprintf("%s: %s", where, d), ""
 	}
 	return o, "", ""
